@@ -7,7 +7,7 @@ use crate::corpus::{self, Corpus};
 use crate::fw::{Ctx, Meta, Property, Tier};
 use crate::refeval::{Ref, Stop};
 use crate::shrink::shrink;
-use crate::subj::{run_program, BData, Fail, Host, SData, Subject};
+use crate::subj::{run_program, BData, Call, Fail, Host, SData, Subject};
 use crate::val::V;
 use serde_json::{json, Value};
 use std::sync::OnceLock;
@@ -49,23 +49,115 @@ pub enum Outcome {
 
 /// judge one (program, input, implementation)
 pub fn judge<D: Subject>(e: &E, input: &V) -> (Outcome, String) {
+    judge_host::<D>(e, input, &Host::none(), false)
+}
+
+fn show_log(l: &[Call]) -> String {
+    l.iter()
+        .map(|c| match c {
+            Call::Resolve(s) => format!("resolve#{:x}", s & 0xffff),
+            Call::Apply(n, a) => format!("apply({},{})", n, a),
+            Call::Defer(op, l, r) => format!("defer({},{},{})", op, l.0, r.0),
+        })
+        .collect::<Vec<_>>()
+        .join(" ")
+}
+
+/// what the reference expects: (call log, value), both shown as text (for replay files)
+pub fn reference_of<D: Subject>(e: &E, input: &V, host: &Host) -> Option<(String, String)> {
+    let mut host = host.clone();
+    if !D::has_external_apply() {
+        host.apply_accept = false;
+    }
+    let mut r = Ref::new(&host, 64);
+    let v = r.run(e, input).ok()?;
+    let mut log = r.log.clone();
+    if !D::has_external_apply() {
+        log.retain(|c| !matches!(c, Call::Apply(..)));
+    }
+    Some((show_log(&log), v.show()))
+}
+
+/// what the implementation does with a source text: (call log, value or failure kind)
+pub fn observe<D: Subject>(src: &str, input: &V, host: &Host) -> (String, String) {
+    let mut host = host.clone();
+    if !D::has_external_apply() {
+        host.apply_accept = false;
+    }
+    let mut d = D::fresh(host);
+    let res = (|| -> Result<V, Fail> {
+        let (_, bd) = crate::subj::compile(src, &mut d)?;
+        crate::subj::start(&mut d, *bd.jump_index(), input)?;
+        crate::subj::run_to_end(&mut d, 100_000)?;
+        crate::subj::current_value(&d)
+    })();
+    let log = show_log(&d.host().log);
+    (log, match res {
+        Ok(v) => v.show(),
+        Err(f) => f.kind(),
+    })
+}
+
+/// replay helper shared by the host-observing properties: still failing iff log or value differ from the recorded expectation
+pub fn replay_observed<D: Subject>(cx: &mut Ctx, d: &Value, input: &V, host: &Host) {
+    let src = d["src"].as_str().unwrap_or("");
+    let (log, val) = observe::<D>(src, input, host);
+    let want_log = d["expected_log"].as_str().unwrap_or("");
+    let want_val = d["expected_value"].as_str().unwrap_or("");
+    if log != want_log || val != want_val {
+        let kind = if log != want_log { "host-calls-differ" } else if val.starts_with("run-err") || val.starts_with("panic") { "run-failed" } else { "value-mismatch" };
+        cx.violation(kind, &format!("{} | {}", D::NAME, src.replace('\n', "\\n")), json!({"src": src, "log": log, "value": val, "expected_log": want_log, "expected_value": want_val}));
+    }
+}
+
+/// judge one (program, input, implementation) under a scripted recording host; with `logs` the host-call
+/// sequence (callback, argument) must equal the reference evaluator's
+pub fn judge_host<D: Subject>(e: &E, input: &V, host: &Host, logs: bool) -> (Outcome, String) {
     let src = match print(e) {
         Some(s) => s,
         None => return (Outcome::Skip, String::new()),
     };
-    let host = Host::none();
+    let mut host = host.clone();
+    if !D::has_external_apply() {
+        host.apply_accept = false;
+    }
     let mut r = Ref::new(&host, 64);
     let expect = match r.run(e, input) {
         Ok(v) => v,
         Err(Stop::Fuel) | Err(Stop::Skip(_)) | Err(Stop::Restart(_)) => return (Outcome::Skip, src),
     };
     let cap = 20 * r.steps + 500;
-    match run_program::<D>(&src, input, Host::none(), cap) {
-        Ok(out) => {
-            if out.value == expect {
+    let mut want_log = r.log.clone();
+    if !D::has_external_apply() {
+        want_log.retain(|c| !matches!(c, Call::Apply(..)));
+    }
+    let mut d = D::fresh(host.clone());
+    let res = (|| -> Result<V, Fail> {
+        let (_, bd) = crate::subj::compile(&src, &mut d)?;
+        crate::subj::start(&mut d, *bd.jump_index(), input)?;
+        crate::subj::run_to_end(&mut d, cap)?;
+        crate::subj::current_value(&d)
+    })();
+    let got_log = d.host().log.clone();
+    // a run that stopped with an error can only have produced a prefix of the calls: report the failure itself
+    let failed_with_prefix = res.is_err() && got_log.len() <= want_log.len() && want_log[..got_log.len()] == got_log[..];
+    if logs && got_log != want_log && !failed_with_prefix {
+        // classify: a call too many / too few / different order or argument
+        let kind = if got_log.len() > want_log.len() {
+            "host-called-more-than-reference"
+        } else if got_log.len() < want_log.len() {
+            "host-called-less-than-reference"
+        } else {
+            "host-calls-differ"
+        };
+        return (Outcome::Bad(kind.into(), format!("calls [{}] (reference [{}])", show_log(&got_log), show_log(&want_log))), src);
+    }
+    match res {
+        Ok(value) => {
+            if value == expect {
                 (Outcome::Ok, src)
             } else {
-                (Outcome::Bad("value-mismatch".into(), format!("{} (reference {})", out.value.show(), expect.show())), src)
+                (Outcome::Bad("value-mismatch".into(), format!("{} (reference {})", value.show(), expect.show())), src)
             }
         }
         Err(f) => (Outcome::Bad(fail_kind(&f), format!("{:?} (reference {})", f, expect.show())), src),
